@@ -65,12 +65,13 @@ structure WorldOK (w : World) (l0 l1 : Level) (spec : List String) : Prop where
   hstream : LoaderStream l0.dataType w.superName none (loaderStream w l0 spec)
 
 theorem concatLoader_source {w : World} {l0 l1 : Level} {spec : List String} (h : WorldOK w l0 l1 spec) :
-    concatLoader w spec 0 = .ok (loaderStream w l0 spec) := by
+    concatLoader w spec [] 0 = .ok (loaderStream w l0 spec) := by
   unfold concatLoader
-  have : spec.mapM (fun rid => subrunStored w rid 0) = .ok (spec.map fun rid => (rawOf w rid).map (loaderOf l0 rid)) := by
+  have : spec.mapM (fun rid => subrunLoaded w [] rid 0) = .ok (spec.map fun rid => (rawOf w rid).map (loaderOf l0 rid)) := by
     apply mapM_ok_of_forall
     intro rid hr
     obtain ⟨raw, hs, hne, hid, hok⟩ := h.hruns rid hr
+    simp only [subrunLoaded, List.lookup_nil]
     rw [subrunStored_source (by rw [h.hlevels]) h.hre hs hne hid hok]
     simp [rawOf, hs]
   rw [this]
@@ -85,15 +86,15 @@ theorem loaderStream_ne {w : World} {l0 l1 : Level} {spec : List String} (h : Wo
 
 /-- **The basic superrun pipeline is total and explicit**: concat loader at the source, one superrun-capable
 plugin, nothing stored, nothing written — `get_iter` does not raise and yields `expected`. -/
-theorem superGet_basic {κ : Type} [DecidableEq κ] (H : List String → Bool → κ) {w : World} {l0 l1 : Level}
+theorem superGet_basic {κ : Type} [DecidableEq κ] (H : List (String × Option (Int × Int)) → Bool → κ) {w : World} {l0 l1 : Level}
     {spec : List String} (h : WorldOK w l0 l1 spec) :
-    superGet H w spec [] 1 false false = .ok (expected l1 w.superName none (loaderStream w l0 spec), []) := by
+    superGet H w spec [] [] 1 false false = .ok (expected l1 w.superName none (loaderStream w l0 spec), []) := by
   unfold superGet
   have h1 : w.levels[1]? = some l1 := by rw [h.hlevels]; rfl
   have hal : (!l1.allow) = false := by rw [h.hallow]; rfl
   have ht : (w.levels.take (1 + 1)).reverse = [l1, l0] := by rw [h.hlevels]; rfl
   simp only [h1, hal, Bool.false_eq_true, if_false, ht]
-  have hd : descend w spec (superrunKey H w.superName spec false) ([] : Store κ) false [l1, l0]
+  have hd : descend w spec [] (superrunKey H w.superName spec [] false) ([] : Store κ) false [l1, l0]
       = .ok (loaderStream w l0 spec, [l1]) := by
     simp [descend, hal, h.hsrc, concatLoader_source h, bind, Except.bind, pure, Except.pure]
   have hr : runLevels w.superName [l1] (loaderStream w l0 spec)
